@@ -15,6 +15,7 @@
   which the run completes (`runHistory … = some _`).
 -/
 import Proofs.C05
+import Proofs.LogMono
 
 namespace TM
 open C05
@@ -187,5 +188,52 @@ theorem C05_queued_history (fin0 : Nat) (sc : Script) (cfg : Cfg) (qmax fuel : N
         cases n with
         | zero => simp at hn
         | succ n => rw [a1]; exact a2 n (by simpa using hn)
+
+/-- **C05 (no queue): an event triggered from a callback is processed immediately and completely before the
+triggering callback returns.**  For EVERY script, configuration, fuel and engine state: if the `k`-th invocation of
+callback `c` is scripted to trigger event `ev` on model `m` (alone), then in the trace of that invocation the `call`
+item of `c` is followed by the WHOLE processing of the nested trigger — its `api` item first, its own outcome item
+(`ret` / `raised` with the nested call's tag) last, everything the nested event does (including its finalize
+callbacks) in between — and only then by the `done` item of `c`.  (On a queued machine the nested call's segment is
+just `api, ret True`: C05_queued_history.) -/
+theorem C05_unqueued_nested_immediate (sc : Script) (cfg : Cfg) (qmax f : Nat) (slot : Slot) (x : Ctx) (c : Nat) (s : St)
+    (m ev : Nat) (hcmd : (sc c (s.count c)).cmds = [.trigger m ev]) :
+    ∀ s', (invoke (runCmd sc cfg qmax (f + 1)) sc slot x c s).state? = some s' →
+      ∃ (mid : List Item) (out : Item) (o : Out),
+        s'.log = s.log ++ [.call slot c x.model x.tag (s.stateOf x.model)] ++
+          (.api 0 s.nextTag m ev :: mid ++ [out]) ++ [.done c o] ∧
+        ((∃ b, out = .ret s.nextTag b) ∨ ∃ e, out = .raised s.nextTag e) := by
+  intro s' h
+  unfold invoke at h
+  simp only [hcmd, runCmds] at h
+  -- the state in which the nested call is issued
+  generalize hs2 : (({ s with counts := aset c (s.count c + 1) s.counts } : St).emit
+      (.call slot c x.model x.tag (({ s with counts := aset c (s.count c + 1) s.counts } : St).stateOf x.model))) = s2 at h
+  have hs2log : s2.log = s.log ++ [.call slot c x.model x.tag (s.stateOf x.model)] := by
+    rw [← hs2]; rfl
+  have hs2tag : s2.nextTag = s.nextTag := by rw [← hs2]; rfl
+  have hstep : runCmd sc cfg qmax (f + 1) (.trigger m ev) s2 =
+      (apiTrigger (runCmd sc cfg qmax f) sc cfg qmax m ev s2).map fun _ => () := rfl
+  rw [hstep] at h
+  have hshape := apiTrigger_shape (runCmd_grows sc cfg qmax f) sc cfg qmax m ev s2
+  cases hr : apiTrigger (runCmd sc cfg qmax f) sc cfg qmax m ev s2 with
+  | oof => simp [hr, Res.map, Res.bind, Res.state?] at h
+  | ok b s3 =>
+    obtain ⟨mid, out, hl, ho⟩ := hshape s3 (by simp [hr, Res.state?])
+    simp only [hr, Res.map, Res.bind] at h
+    rw [hs2tag] at hl ho
+    cases hout : (sc c (s.count c)).out with
+    | ret bb =>
+      simp [hout, Res.state?] at h; subst h
+      exact ⟨mid, out, .ret bb, by simp [St.emit, hl, hs2log], ho⟩
+    | raise e =>
+      simp [hout, Res.state?] at h; subst h
+      exact ⟨mid, out, .raise e, by simp [St.emit, hl, hs2log], ho⟩
+  | err e s3 =>
+    obtain ⟨mid, out, hl, ho⟩ := hshape s3 (by simp [hr, Res.state?])
+    simp only [hr, Res.map, Res.bind, Res.state?] at h
+    rw [hs2tag] at hl ho
+    simp at h; subst h
+    exact ⟨mid, out, .raise e, by simp [St.emit, hl, hs2log], ho⟩
 
 end TM
